@@ -1,7 +1,7 @@
 SPECIFICATION Spec
 CONSTANTS
   N = 4
-  Mode = "single"
+  Mode = "union"
   Vals = {1, 2, 3}
 INVARIANTS
   SizesAddUp
